@@ -394,7 +394,7 @@ func parent(id, tier string) int {
 	total := newAcc()
 	inconclusive := false
 	var crashed []Violation
-	hard := budget(tier) + 10*time.Minute
+	hard := budget(tier) + 3*time.Minute
 
 	for _, flavour := range stages {
 		bin := self
